@@ -222,7 +222,7 @@ func zzNKeys() int {
 func zzC04Env(loop control_loop.ControlLoop) *zzEnv {
 	e := zzNewFan(zzKindHwmon, zzv.Bool("neverStop"), true, true, true, zzv.Int("devPwm"), 1, zzv.Int("devRpm"))
 	zzHwmonLimits(e)
-	zzv.Assume(e.hw.RpmMovingAvg > 0) // the fan is spinning: no stall handling in this property
+	zzv.Assume(e.hw.RpmMovingAvg >= 1) // the fan is spinning (average of at least 1 RPM): no stall handling in this property
 	e.zzController(loop, zzRange("curveValue", 0, 255), 2)
 	zzv.Assume(e.fan.GetMinPwm() <= e.fan.GetMaxPwm())
 	return e
